@@ -1,28 +1,107 @@
 """C20 — the inline-storage vector behaves like a standard vector.
 
 Lean: a model of small_vector<T,S> with explicit storage and object lifetimes
-(Vita/C20/Model.lean) and the proofs that, for every operation sequence, it refines the
-List semantics of std::vector, raises no lifetime fault and leaks nothing at the end
-(Vita/C20/Props.lean).  Tie: scripts of public operations on two vectors are run through
-the compiled small_vector<T,S> (S = 1..8; T = int, double, std::string, a lifetime-tracking
-type) under ASan/LSan next to a std::vector<T> (the harness's own oracle) and through the
-compiled Lean model; contents, observations and lifetime events are compared after every
-operation.
+(Vita/C20/Model.lean), parametric in the element type's == and <, and the proofs that, for
+every operation sequence, it refines the List semantics of std::vector, raises no lifetime
+fault and leaks nothing at the end (Vita/C20/Props.lean).
+Tie (A): tools/translate_smallvec.py regenerates Vita/C20/Gen.lean from the clang AST (statement
+skeleton of every function of small_vector.{h,tcc}; members used by the library); Props proves
+that the skeletons are the ones the model implements and that every used member is modelled.
+Tie (B): scripts of public operations on two vectors are run through the compiled
+small_vector<T,S> (S = 1..8; T = int, double, std::string, a lifetime-tracking type, a padded
+POD with key-only equality; values include +-0, NaN, inf) under ASan/LSan next to a
+std::vector<T> (the harness's own oracle) and through the compiled Lean model; contents,
+observations (incl. all six relational operators, also across inline capacities) and lifetime
+events are compared after every operation.
 """
 import json
 import os
+import sys
 
 from vlib import common as C
 
-TYPES = ["int", "double", "string", "tracked"]
+sys.path.insert(0, os.path.join(C.ROOT, "tools"))
+import translate_smallvec  # noqa: E402
+
+TYPES = ["int", "double", "string", "tracked", "pod"]
+TRIVIAL = ("int", "double", "pod")
 EVN = ["construct-over-alive", "destroy-raw", "assign-to-raw", "read-raw", "read-moved"]
+CMPS = ["eq", "ne", "lt", "gt", "le", "ge"]
+MAXSIZE = str(2 ** 64 - 1)
+
+# ---------------------------------------------------------------------------
+# the element VALUE class: an id names a representation; `==` and `<` belong to the element type
+# (third opinion, independent of the Lean driver's tables and of the C++ types)
+# ---------------------------------------------------------------------------
+D_NEG0, D_NAN, D_NAN2, D_INF, D_NINF, D_M1, D_DEN, D_M2 = range(90000001, 90000009)
+D_SPECIAL = {D_NEG0: -0.0, D_NAN: float("nan"), D_NAN2: float("nan"), D_INF: float("inf"),
+             D_NINF: float("-inf"), D_M1: -1.0, D_DEN: 5e-324, D_M2: -2.0}
+POD = 1000000
+
+
+def value(ty, i):
+    if ty == "double":
+        return D_SPECIAL[i] if i in D_SPECIAL else float(i)
+    if ty == "pod":
+        return i % POD
+    return i
+
+
+def vec_eq(ty, x, y):
+    return len(x) == len(y) and all(value(ty, a) == value(ty, b) for a, b in zip(x, y))
+
+
+def vec_lt(ty, x, y):
+    for a, b in zip(x, y):
+        va, vb = value(ty, a), value(ty, b)
+        if va < vb:
+            return True
+        if vb < va:
+            return False
+    return len(x) < len(y)
+
+
+def vec_cmp(ty, k, x, y):
+    if k == "eq":
+        return vec_eq(ty, x, y)
+    if k == "ne":
+        return not vec_eq(ty, x, y)
+    if k == "lt":
+        return vec_lt(ty, x, y)
+    if k == "gt":
+        return vec_lt(ty, y, x)
+    if k == "le":
+        return not vec_lt(ty, y, x)
+    return not vec_lt(ty, x, y)
+
+
+def variants(ty, v):
+    """ids whose value is `==` to v's but whose representation differs (empty if the type has none)"""
+    if ty == "double":
+        return [D_NEG0] if v == 0 else [0] if v == D_NEG0 else []
+    if ty == "pod":
+        return [(v % POD) + POD * a for a in (1, 2, 37) if (v % POD) + POD * a != v]
+    return []
+
+
+def unordered(ty):
+    """ids that are not even `==` to themselves"""
+    return [D_NAN, D_NAN2] if ty == "double" else []
+
+
+def specials(ty):
+    if ty == "double":
+        return sorted(D_SPECIAL)
+    return []
 
 
 
-def build_header_only(name, extra_flags=()):
+def build_header_only(name, extra_flags=(), parts=6, jobs=6):
     """Compile harness/<name>.cc against the HEADERS of the working tree only (the code under
-    test is header-only: no libvita.a needed, which saves the 28-file library build).  Cached
-    by the hash of the source tree, the harness and the flags."""
+    test is header-only: no libvita.a needed, which saves the 28-file library build).  The source
+    is compiled in `parts` pieces (-DC20_PART=i: one element type each) in parallel and linked.
+    Cached by the hash of the source tree, the harness and the flags."""
+    import concurrent.futures as cf
     import hashlib
     import time
     out = os.path.join(C.BUILD, "asan")
@@ -39,12 +118,23 @@ def build_header_only(name, extra_flags=()):
     if os.path.exists(exe) and os.path.exists(stamp) and open(stamp).read() == key:
         return exe
     t0 = time.time()
-    rc, so, se = C.sh(["g++"] + flags + [src, "-o", exe])
+
+    def comp(i):
+        o = "%s.part%d.o" % (exe, i)
+        rc, so, se = C.sh(["g++"] + flags + ["-DC20_PART=%d" % i, "-c", src, "-o", o])
+        return o, rc, se
+
+    with cf.ThreadPoolExecutor(jobs) as ex:
+        res = list(ex.map(comp, range(parts)))
+    bad = [se for _, rc, se in res if rc != 0]
+    if bad:
+        raise RuntimeError("harness %s does not compile against the working tree:\n%s" % (name, bad[0][-6000:]))
+    rc, so, se = C.sh(["g++"] + flags + [o for o, _, _ in res] + ["-o", exe])
     if rc != 0:
-        raise RuntimeError("harness %s does not compile against the working tree:\n%s" % (name, se[-6000:]))
+        raise RuntimeError("harness %s does not link:\n%s" % (name, se[-6000:]))
     with open(stamp, "w") as f:
         f.write(key)
-    C.log("[build] harness %s (asan, header-only) built in %.1fs" % (name, time.time() - t0))
+    C.log("[build] harness %s (asan, header-only, %d parts) built in %.1fs" % (name, parts, time.time() - t0))
     return exe
 
 
@@ -64,6 +154,18 @@ class Script:
     def fresh(self):
         self.nid += 1
         return self.nid
+
+    def val(self, rng, p=12):
+        """A value for a script: mostly fresh ordinary ids; with probability p% a value on which the
+        element type's `==`/`<` differ from the identity of representations (0, -0, NaN, inf, a pod
+        with an already used key and another `aux`)."""
+        if rng.below(100) < p:
+            if self.ty == "double":
+                return rng.choice([0, 0] + specials("double"))
+            if self.ty == "pod":
+                pool = [v for r in self.reg for v in r] or [self.fresh()]
+                return (rng.choice(pool) % POD) + POD * rng.below(4)
+        return self.fresh()
 
     def op(self, r, name, *args):
         """Append an operation; returns False (and appends nothing) if its precondition fails."""
@@ -96,6 +198,8 @@ class Script:
         elif name == "clear":
             self.reg[r] = []
             self.spec[r] = True
+        elif name == "maxSize":
+            exp = MAXSIZE
         else:
             if not sx:
                 return False
@@ -105,13 +209,51 @@ class Script:
                         return False
                     x.append(x[args[1]])
                 else:
+                    if args[0] == "a0" and args[1] != 0:
+                        return False
+                    if args[0] in ("a2", "a3") and self.ty in ("int", "double"):
+                        return False
                     x.append(args[1])
-            elif name == "insert":
+            elif name in ("insert", "insertL"):
                 pos, vals = args[0], list(args[2:])
                 if pos > len(x):
                     return False
                 x[pos:pos] = vals
                 exp = str(pos)
+            elif name in ("front", "back"):
+                if not x:
+                    return False
+                exp = str(x[0] if name == "front" else x[-1])
+            elif name in ("setFront", "setBack"):
+                if not x:
+                    return False
+                x[0 if name == "setFront" else -1] = args[0]
+            elif name == "dataAt":
+                if args[0] >= len(x):
+                    return False
+                exp = str(x[args[0]])
+            elif name == "setData":
+                if args[0] >= len(x):
+                    return False
+                x[args[0]] = args[1]
+            elif name in ("iterFwd", "iterRev"):
+                l = x if name == "iterFwd" else x[::-1]
+                exp = ",".join(str(v) for v in l) if l else "-"
+            elif name == "empty":
+                exp = "0" if x else "1"
+            elif name == "size":
+                exp = str(len(x))
+            elif name == "capOk":
+                exp = "1"
+            elif name == "cmp":
+                if not sy:
+                    return False
+                exp = "1" if vec_cmp(self.ty, args[0], x, y) else "0"
+            elif name == "cmpMixed":
+                if not sy:
+                    return False
+                a, b = (y, x) if args[2] else (x, y)
+                exp = "1" if vec_cmp(self.ty, args[1], a, b) else "0"
             elif name == "resize":
                 n = args[0]
                 del x[n:]
@@ -129,7 +271,7 @@ class Script:
             elif name in ("cmpEq", "cmpLt"):
                 if not sy:
                     return False
-                exp = "1" if (x == y if name == "cmpEq" else x < y) else "0"
+                exp = "1" if vec_cmp(self.ty, "eq" if name == "cmpEq" else "lt", x, y) else "0"
             else:
                 raise ValueError(name)
         self.lines.append("%d %s%s" % (r, name, "".join(" " + str(a) for a in args)))
@@ -239,14 +381,110 @@ def directed(ty, S, rng, quick):
                 s.op(1, "resize", b)
                 s.op(0, "cmpLt")
                 out.append(s.done())
+    # (f) comparison: the six operators, on vectors that are equal / differ only in a value whose `==` is not
+    #     the identity of representations (+0/-0, NaN, pod aux) / differ in one ordinary value / in length,
+    #     with either operand inline or on the heap, and against a small_vector of another inline capacity
+    lens = sorted({0, 1, max(S - 1, 1), S, S + 1, 2 * S + 1})
+    idx = 0
+    for n in lens:
+        base = [s0 for s0 in range(3, 3 + n)]
+        if ty == "double" and n:
+            base[n // 2] = 0                                    # a zero that can become -0.0
+        muts = [("same", None)]
+        for pos in sorted({0, n // 2, n - 1}) if n else []:
+            for v in variants(ty, base[pos])[:2]:
+                muts.append(("variant", (pos, v)))
+            for v in unordered(ty):
+                muts.append(("unordered", (pos, v)))
+            muts.append(("less", (pos, 1)))
+            muts.append(("greater", (pos, 99)))
+            if ty == "double":
+                muts.append(("special", (pos, specials(ty)[(pos + n) % len(specials(ty))])))
+        muts += [("shorter", None), ("longer", None)]
+        for kind, arg in muts:
+            for px in (0, 1):
+                for py in (0, 1):
+                    idx += 1
+                    if quick and (idx + px + 2 * py) % 3 == 0 and kind not in ("variant", "unordered"):
+                        continue
+                    xs, ys = list(base), list(base)
+                    if kind == "unordered":
+                        xs[arg[0]] = arg[1]                     # the SAME NaN on both sides: still unequal
+                        ys[arg[0]] = arg[1]
+                    elif arg is not None:
+                        ys[arg[0]] = arg[1]
+                    elif kind == "shorter":
+                        ys = ys[:-1]
+                    elif kind == "longer":
+                        ys = ys + [7]
+                    sc = Script(ty, S, "compare")
+                    for r, vals, heap in ((0, xs, px), (1, ys, py)):
+                        if heap:
+                            sc.op(r, "reserve", 2 * S + 2)      # elements on the heap whatever the size
+                        if (idx + r) % 2 and len(vals) <= 10:
+                            sc.op(r, "insert", 0, len(vals), *vals) if vals else None
+                        else:
+                            for v in vals:
+                                sc.op(r, "pushBack", "v", v)
+                    for k in CMPS:
+                        sc.op(idx % 2, "cmp", k)
+                    for j, k in enumerate(CMPS):
+                        sc.op((idx + j) % 2, "cmpMixed", (1, 4, 8)[(idx + j) % 3], k, (idx + j // 3) % 2)
+                    out.append(sc.done())
+    # (g) element access, iterators, observers; emplace_back with 0..3 constructor arguments; list iterators
+    for n in szs:
+        for heap in (0, 1):
+            sc = Script(ty, S, "access")
+            if heap:
+                sc.op(0, "reserve", 2 * S + 2)
+            sc.fill(0, n, n % 3) if not heap else [sc.op(0, "pushBack", "v", sc.val(rng, 30)) for _ in range(n)]
+            for nm in ("empty", "size", "capOk", "maxSize", "iterFwd", "iterRev", "front", "back"):
+                sc.op(0, nm)
+            for i in sorted({0, n // 2, n - 1}) if n else []:
+                sc.op(0, "dataAt", i)
+                sc.op(0, "setData", i, sc.val(rng, 30))
+            sc.op(0, "setFront", sc.val(rng, 30))
+            sc.op(0, "setBack", sc.val(rng, 30))
+            sc.op(0, "iterFwd")
+            sc.op(0, "insertL", n // 2, 2, sc.fresh(), sc.fresh())
+            sc.op(0, "iterRev")
+            sc.op(1, "ctorMove")
+            sc.op(1, "iterFwd")
+            sc.op(1, "back")
+            sc.op(0, "maxSize")
+            out.append(sc.done())
+    for start in (0, max(S - 2, 0)):
+        sc = Script(ty, S, "emplace-args")
+        sc.fill(0, start, 0)
+        for i in range(2 * S + 3):
+            k = i % 4
+            v = 0 if k == 0 else sc.fresh()
+            if not sc.op(0, "emplaceBack", "a%d" % k, v):
+                sc.op(0, "emplaceBack", "a1", sc.fresh())
+        sc.op(0, "iterFwd")
+        out.append(sc.done())
+    for n in range(0, S + 2):
+        for pos in range(0, n + 1):
+            for k in (0, 1, n + 1):
+                if quick and (n + pos + k) % 2:
+                    continue
+                sc = Script(ty, S, "insert-list")
+                sc.fill(0, n, (n + pos) % 3)
+                sc.op(0, "insertL", pos, k, *[sc.fresh() for _ in range(k)])
+                sc.op(0, "iterFwd")
+                out.append(sc.done())
     # (e) rejected requests leave everything untouched
     s = Script(ty, S, "reject")
     s.fill(0, S, 0)
     for ln in ("0 insert %d 1 5" % (S + 1), "0 getAt %d" % S, "0 setAt %d 1" % S, "0 pushBack s %d" % S,
-               "2 clear", "0 frobnicate", "0 insert 0 2 1", "0 resize", "0 pushBack x 1", "0 ctorN 100"):
+               "2 clear", "0 frobnicate", "0 insert 0 2 1", "0 resize", "0 pushBack x 1", "0 ctorN 100",
+               "0 dataAt %d" % S, "0 setData %d 1" % S, "0 insertL %d 1 5" % (S + 1), "0 cmp xx", "0 cmp",
+               "0 cmpMixed 2 eq 0", "0 cmpMixed 4 eq 2", "0 cmpMixed 4 zz 0", "0 emplaceBack a4 1",
+               "0 emplaceBack a0 5", "0 front 1", "0 iterFwd 1", "1 front", "1 back", "1 setFront 1", "1 setBack 1"):
         s.raw(ln)
     s.op(1, "ctorMove")
-    for ln in ("0 pushBack v 1", "0 getAt 0", "1 assignCopy", "1 cmpEq", "0 resize 2"):
+    for ln in ("0 pushBack v 1", "0 getAt 0", "1 assignCopy", "1 cmpEq", "0 resize 2", "0 front", "0 iterFwd",
+               "0 empty", "0 size", "0 capOk", "1 cmp eq", "1 cmpMixed 4 lt 0", "0 setData 0 1", "0 emplaceBack a1 3"):
         s.raw(ln)
     s.op(0, "clear")
     s.op(0, "pushBack", "v", 3)
@@ -259,17 +497,21 @@ def random_script(ty, S, rng, length):
     for _ in range(length):
         r = rng.below(2)
         x = s.reg[r]
-        k = rng.below(100)
+        k = rng.below(120)
         n = len(x)
-        if k < 22:
-            s.op(r, rng.choice(["pushBack", "emplaceBack"]), "v", s.fresh())
+        if k < 20:
+            s.op(r, rng.choice(["pushBack", "emplaceBack"]), "v", s.val(rng))
+        elif k < 23:
+            a = rng.below(4)
+            s.op(r, "emplaceBack", "a%d" % a, 0 if a == 0 else s.val(rng))
         elif k < 30:
             if n:
                 s.op(r, rng.choice(["pushBack", "emplaceBack"]), "s", rng.below(n))
         elif k < 48:
             cnt = rng.choice([0, 0, 1, 1, 2, 3, S, S + 1])
             if n + cnt <= 40:
-                s.op(r, "insert", rng.below(n + 1), cnt, *[s.fresh() for _ in range(cnt)])
+                s.op(r, rng.choice(["insert", "insert", "insertL"]), rng.below(n + 1), cnt,
+                     *[s.val(rng) for _ in range(cnt)])
         elif k < 56:
             s.op(r, "resize", rng.choice([0, 1, max(n - 1, 0), n + 1, S, S + 1, 2 * S, rng.below(2 * S + 3)]))
         elif k < 62:
@@ -289,18 +531,36 @@ def random_script(ty, S, rng, length):
         elif k < 91:
             s.op(r, "ctorN", rng.below(2 * S + 2))
         elif k < 93:
-            s.op(r, "ctorNX", rng.below(2 * S + 2), s.fresh())
+            s.op(r, "ctorNX", rng.below(2 * S + 2), s.val(rng, 30))
         elif k < 95:
             m = rng.below(min(2 * S + 2, 11))
-            s.op(r, "ctorList", m, *[s.fresh() for _ in range(m)])
+            s.op(r, "ctorList", m, *[s.val(rng) for _ in range(m)])
         elif k < 97:
             if n:
-                s.op(r, "setAt", rng.below(n), s.fresh())
+                s.op(r, rng.choice(["setAt", "setData"]), rng.below(n), s.val(rng, 30))
         elif k < 98:
             if n:
-                s.op(r, "getAt", rng.below(n))
-        else:
+                s.op(r, rng.choice(["getAt", "dataAt"]), rng.below(n))
+        elif k < 100:
             s.op(r, rng.choice(["cmpEq", "cmpLt"]))
+        elif k < 106:
+            s.op(r, "cmp", rng.choice(CMPS))
+        elif k < 110:
+            s.op(r, "cmpMixed", rng.choice([1, 4, 8]), rng.choice(CMPS), rng.below(2))
+        elif k < 112:
+            # make the other register an element-wise (nearly) equal copy, then compare
+            if s.op(r, "assignCopy") and s.reg[r]:
+                i = rng.below(len(s.reg[r]))
+                alt = variants(ty, s.reg[r][i]) + unordered(ty)
+                if alt:
+                    s.op(r, "setAt", i, rng.choice(alt))
+                s.op(r, "cmp", rng.choice(CMPS))
+        elif k < 115:
+            s.op(r, rng.choice(["front", "back", "iterFwd", "iterRev"]))
+        elif k < 117:
+            s.op(r, rng.choice(["setFront", "setBack"]), s.val(rng, 30))
+        else:
+            s.op(r, rng.choice(["empty", "size", "capOk", "maxSize"]))
     return s.done()
 
 
@@ -318,15 +578,25 @@ def parse_reg(txt, with_oracle):
     return reg
 
 
+_last = [None, None]
+
+
 def parse_cpp(ans):
+    if _last[0] is ans:                  # the same answer is looked at by several stages in a row
+        return _last[1]
     p = [x.strip() for x in ans.split("|")]
-    return {"obs": p[0].split()[1], "regs": [parse_reg(p[1], True), parse_reg(p[2], True)],
-            "ev": [int(x) for x in p[3].split()[1:]]}
+    r = {"obs": p[0].split()[1], "regs": [parse_reg(p[1], True), parse_reg(p[2], True)],
+         "ev": [int(x) for x in p[3].split()[1:]]}
+    _last[0], _last[1] = ans, r
+    return r
 
 
 def parse_model(ans):
     p = [x.strip() for x in ans.split("|")]
     return {"obs": p[0].split()[1], "regs": [parse_reg(p[1], False), parse_reg(p[2], False)]}
+
+
+CMP_OPS = ("cmpEq", "cmpLt", "cmp", "cmpMixed")
 
 
 def own_oracle(sc, i, ans, S):
@@ -370,10 +640,14 @@ def own_oracle(sc, i, ans, S):
                         % (ln, r, ",".join(g["els"]), ",".join(g["ora"])))
     op = ln.split()[1]
     want = sc.expect[i]
-    if op in ("cmpEq", "cmpLt"):
-        if a["obs"][0] != a["obs"][1] or a["obs"][2] != "c":
-            return ("compare", "`%s`: small_vector says %s, std::vector says %s, six operators %s"
-                    % (ln, a["obs"][0], a["obs"][1], "consistent" if a["obs"][2] == "c" else "inconsistent"))
+    if op in CMP_OPS:
+        o = a["obs"]
+        if o[0] != o[1] or o[2] != "c":
+            return ("compare", "`%s`: small_vector says %s, std::vector says %s; the six operators == != < > <= >= "
+                    "%s" % (ln, o[0], o[1], "agree with std::vector's" if o[2] == "c" else
+                            "give (small_vector/std::vector) " + o[4:]))
+        if want is not None and o[1] != want:
+            return ("harness-oracle", "`%s`: std::vector says %s, the element-wise semantics gives %s" % (ln, o[1], want))
     elif want is not None and a["obs"] != want:
         return ("observation", "`%s` returned %s, std::vector semantics gives %s" % (ln, a["obs"], want))
     if op == "reserve" and a["obs"] != "-":
@@ -404,7 +678,7 @@ def model_vs_cpp(ln, c_ans, m_ans):
         return "model answers %r" % m_ans
     a, m = parse_cpp(c_ans), parse_model(m_ans)
     op = ln.split()[1]
-    co = a["obs"][0] if op in ("cmpEq", "cmpLt") else a["obs"]
+    co = a["obs"][0] if op in CMP_OPS else a["obs"]
     if co != m["obs"]:
         return "observation: code %s, model %s" % (co, m["obs"])
     for r in (0, 1):
@@ -424,16 +698,37 @@ def opname_of(ln):
     return t[1] if len(t) > 1 and t[0] in ("0", "1") else t[0]
 
 
-def run_scripts(exe, scripts, use_model=True):
+def run_scripts(exe, scripts, use_model=True, procs=4):
+    """Run every script through the compiled class (several harness processes side by side, each on a
+    contiguous group of whole scripts) and, at the same time, through the compiled Lean model."""
+    import concurrent.futures as cf
     lines = [ln for s in scripts for ln in s.lines]
-    cpp, deaths = C.run_lines(exe, lines, max_restarts=120)
+    groups, cur, tot = [], [], 0
+    per = max(1, len(lines) // procs + 1)
+    for sc in scripts:
+        cur += sc.lines
+        if len(cur) >= per:
+            groups.append(cur)
+            cur = []
+    if cur:
+        groups.append(cur)
     model = None
     err = None
-    if use_model:
-        try:
-            model = C.run_driver("c20_driver", lines)
-        except RuntimeError as e:
-            err = str(e)
+    with cf.ThreadPoolExecutor(len(groups) + 1) as ex:
+        fm = ex.submit(C.run_driver, "c20_driver", lines) if use_model else None
+        fs = [ex.submit(C.run_lines, exe, g, (), None, 1800, 40) for g in groups]
+        cpp, deaths, off = [], [], 0
+        for g, f in zip(groups, fs):
+            a, d = f.result()
+            a = (a + ["skipped"] * len(g))[:len(g)]
+            cpp += a
+            deaths += [(off + i, rc, tail) for i, rc, tail in d]
+            off += len(g)
+        if fm is not None:
+            try:
+                model = fm.result()
+            except RuntimeError as e:
+                err = str(e)
     return lines, cpp, model, deaths, err
 
 
@@ -447,7 +742,12 @@ def first_failure(sc, cpp, off):
     return None
 
 
-def shrink(exe, sc, kind, budget=120):
+LEGEND = {"double": " [element ids: 0 = +0.0, 90000001 = -0.0, 90000002/90000003 = NaN, 90000004 = +inf, 90000005 = "
+                    "-inf, 90000006 = -1.0, 90000007 = denorm_min, 90000008 = -2.0, n = double(n)]",
+          "pod": " [element ids: aux * 1000000 + key; Pod::operator== and < compare `key` only]"}
+
+
+def shrink(exe, sc, kind, budget=160):
     """Greedy removal of operations while the same kind of failure persists (own oracle only)."""
     ops = sc.lines[1:-1]
 
@@ -464,6 +764,17 @@ def shrink(exe, sc, kind, budget=120):
                 return f[0] == kind
         return False
 
+    def twin(i):
+        """index of the same operation on the other register (vectors that must stay alike), or None"""
+        t = ops[i].split(" ", 1)
+        if len(t) < 2 or t[0] not in ("0", "1"):
+            return None
+        want = ("1" if t[0] == "0" else "0") + " " + t[1]
+        for j in range(len(ops) - 1, -1, -1):
+            if j != i and ops[j] == want:
+                return j
+        return None
+
     changed = True
     while changed and budget > 0:
         changed = False
@@ -474,8 +785,90 @@ def shrink(exe, sc, kind, budget=120):
             if fails(cand):
                 ops = cand
                 changed = True
+            else:
+                j = twin(i)
+                if j is not None and budget > 0:
+                    lo, hi = min(i, j), max(i, j)
+                    cand = ops[:lo] + ops[lo + 1:hi] + ops[hi + 1:]
+                    budget -= 1
+                    if fails(cand):
+                        ops = cand
+                        changed = True
+                        i = min(i, len(ops))
             i -= 1
     return [sc.lines[0]] + ops + ["end"]
+
+
+def translate(chk, broken):
+    """Regenerate lean/Vita/C20/Gen.lean from the clang AST of the working tree (statement skeleton of every
+    function of small_vector.{h,tcc}; members used by the library).  Cached by the hash of the source tree and of
+    the translator."""
+    import hashlib
+    gen_path = os.path.join(C.LEAN, "Vita", "C20", "Gen.lean")
+    h = hashlib.sha256()
+    h.update(C.repo_tree_hash("c20-translate").encode())
+    for f in ("translate_smallvec.py", "cxx2lean.py", os.path.join("tu", "smallvec_tu.cc"),
+              os.path.join("tu", "smallvec_users_tu.cc")):
+        h.update(open(os.path.join(C.ROOT, "tools", f), "rb").read())
+    if os.path.exists(gen_path):
+        h.update(open(gen_path, "rb").read())
+    key = h.hexdigest()
+    os.makedirs(C.BUILD, exist_ok=True)
+    stamp = os.path.join(C.BUILD, "c20_gen.stamp")
+    info_path = os.path.join(C.BUILD, "c20_gen.json")
+    if os.path.exists(stamp) and os.path.exists(info_path) and open(stamp).read() == key:
+        info = json.load(open(info_path))
+    else:
+        try:
+            info, changed = translate_smallvec.emit(gen_path)
+        except Exception as e:      # Refuse, clang failure
+            broken.append("translator tools/translate_smallvec.py refuses the current sources: %s" % (e,))
+            return
+        if changed:
+            C.log("[C20] lean/Vita/C20/Gen.lean regenerated (the sources of small_vector or its users changed)")
+        h = hashlib.sha256()
+        h.update(C.repo_tree_hash("c20-translate").encode())
+        for f in ("translate_smallvec.py", "cxx2lean.py", os.path.join("tu", "smallvec_tu.cc"),
+                  os.path.join("tu", "smallvec_users_tu.cc")):
+            h.update(open(os.path.join(C.ROOT, "tools", f), "rb").read())
+        h.update(open(gen_path, "rb").read())
+        json.dump(info, open(info_path, "w"))
+        with open(stamp, "w") as f:
+            f.write(h.hexdigest())
+    chk.cov["translated_functions"] = len(info["functions"])
+    chk.cov["members_used_by_the_library"] = info["used"]
+    chk.cov["translator_mode"] = info.get("mode")
+    for spec, sigs in info["used"].items():
+        chk.count("user:" + spec, len(sigs))
+
+
+def skeleton_diff():
+    """Which functions of Gen.lean (from the AST) differ from Skeleton.lean (what the model implements)."""
+    import difflib
+    import re
+
+    def defs(path):
+        try:
+            txt = open(path).read()
+        except OSError:
+            return {}
+        out = {}
+        for m in re.finditer(r"^def (\w+Sk) : List Sk := (.*?)(?=^\s*$)", txt, re.M | re.S):
+            out[m.group(1)] = [ln.strip() for ln in m.group(2).strip().splitlines()]
+        return out
+    g = defs(os.path.join(C.LEAN, "Vita", "C20", "Gen.lean"))
+    h = defs(os.path.join(C.LEAN, "Vita", "C20", "Skeleton.lean"))
+    msgs = []
+    for k in sorted(set(g) | set(h)):
+        if k not in h:
+            msgs.append("%s: new function, not in the model" % k)
+        elif k not in g:
+            msgs.append("%s: function no longer in the sources" % k)
+        elif g[k] != h[k]:
+            d = [ln for ln in difflib.unified_diff(h[k], g[k], "model", "source", lineterm="", n=0)
+                 if not ln.startswith(("---", "+++", "@@"))]
+            msgs.append("%s: %s" % (k, " | ".join(d[:8])))
+    return msgs
 
 
 def run(chk, replay=None):
@@ -483,13 +876,17 @@ def run(chk, replay=None):
     quick = chk.tier == "quick"
     broken = []
 
+    translate(chk, broken)
     ok, out = C.lake_build(["c20_driver"])
     drv_ok = ok
     if not ok:
         broken.append("the model / driver does not build: " + C.lean_errors(out))
     ok, msg = chk.prove("Vita.C20.Props", ["Vita.C20.Props"])
     if not ok:
-        broken.append("theorems of Vita.C20.Props no longer check: " + msg)
+        sd = skeleton_diff()
+        broken.append("theorems of Vita.C20.Props no longer check: " + msg +
+                      ("\nstatement skeletons that differ from the model (- model / + source): " + "; ".join(sd[:6])
+                       if sd else ""))
 
     exe = build_header_only("c20_smallvec", ["-O0"])
 
@@ -563,6 +960,10 @@ def run(chk, replay=None):
             if f and f[0] == "skipped":
                 chk.count("scripts_not_evaluated")
                 break
+            if f and f[0] == "harness-oracle":
+                broken.append("the harness's std::vector oracle disagrees with the element-wise semantics kept by "
+                              "the check: %s (script %s)" % (f[1], json.dumps(sc.lines[:i + 1])))
+                break
             if f:
                 fail = (i, f)
                 break
@@ -591,7 +992,7 @@ def run(chk, replay=None):
         cls = None
         if fail:
             cls = "%s/%s/%s" % (fail[1][0], opname_of(sc.lines[fail[0]]),
-                                "trivial" if sc.ty in ("int", "double") else "non-trivial")
+                                "trivial" if sc.ty in TRIVIAL else "non-trivial")
             classes[cls] = classes.get(cls, 0) + 1
         if fail and classes[cls] == 1 and len(classes) <= 12:
             nviol += 1
@@ -605,7 +1006,7 @@ def run(chk, replay=None):
                 except Exception as e:      # shrinking is best effort
                     chk.notes.append("shrink failed: %r" % (e,))
             mans = model[off + i] if model is not None and off + i < len(model) else None
-            chk.violation("small_vector<%s,%d> %s: %s" % (sc.ty, sc.S, kind, msg),
+            chk.violation("small_vector<%s,%d> %s: %s%s" % (sc.ty, sc.S, kind, msg, LEGEND.get(sc.ty, "")),
                           {"script": script, "found_in": sc.tag, "kind": kind, "cpp_answer": cpp[off + i][:400],
                            "model_answer": mans},
                           tags={"type": sc.ty, "S": sc.S, "kind": kind, "op": opname_of(sc.lines[i]),
@@ -633,13 +1034,21 @@ def run(chk, replay=None):
         chk.notes += broken[:6]
     return chk.finish(
         level="proof",
-        checker_cmd="lake build Vita.C20.Props && lake env lean <#print axioms for every theorem>",
-        rule="scripts of public operations on two small_vector<T,S> (T in int,double,string,tracked; S in 1..8): "
-             "directed families (every insert position x range length x spare capacity, assignment/construction "
-             "matrix across the inline/heap boundary, self-referential push_back at every capacity boundary, resize "
-             "transitions, rejected requests) + random scripts; distinct = distinct complete scripts; after every "
-             "operation the compiled vector is compared with std::vector, the lifetime registry and the Lean model",
-        trusted=["Lean 4.33 kernel", "Vita/C20/Model.lean: hand-written model of small_vector.tcc at the granularity "
-                 "of the std algorithms it calls (tied by the differential run)",
-                 "std::vector<T> of libstdc++ as reference semantics", "the Tracked element type and registry of "
-                 "harness/c20_smallvec.cc", "g++ 12.2 ASan/UBSan/LSan"])
+        checker_cmd="python3 tools/translate_smallvec.py && lake build Vita.C20.Props && lake env lean <#print axioms "
+                    "for every theorem>",
+        rule="scripts of public operations on two small_vector<T,S> (T in int,double,string,tracked,pod; S in 1..8; "
+             "element values include +-0, NaNs, infinities and PODs that are == with different bytes): directed "
+             "families (six operators x equal / ==-variant / NaN / smaller / larger / shorter / longer operand x inline "
+             "or heap x mixed inline capacities; accessors, iterators, observers; emplace_back with 0..3 arguments; "
+             "list iterators; every insert position x range length x spare capacity; assignment/construction matrix "
+             "across the inline/heap boundary; self-referential push_back at every capacity boundary; resize "
+             "transitions; rejected requests) + random scripts; distinct = distinct complete scripts; after every "
+             "operation the compiled vector is compared with std::vector, the lifetime registry and the Lean model; "
+             "the statement skeleton of all functions and the members used by the library are re-extracted from the "
+             "clang AST and checked against the model by Lean",
+        trusted=["Lean 4.33 kernel", "Vita/C20/Model.lean: hand-written model of small_vector.{h,tcc} at the granularity "
+                 "of the std algorithms it calls (tied by the differential run, the skeleton obligations and, for "
+                 "resize and copy assignment, the denotation theorems)",
+                 "tools/translate_smallvec.py + cxx2lean.py (clang-14 JSON AST -> statement skeletons, used members)",
+                 "std::vector<T> of libstdc++ as reference semantics", "the Tracked / Pod element types, the id<->value "
+                 "encodings and the registry of harness/c20_smallvec.cc", "g++ 12.2 ASan/UBSan/LSan"])
